@@ -202,6 +202,14 @@ def drvStep (s : St) (args : List String) : St × String :=
         | .panic => "panic"
       (r.1, out ++ tail r.1)
   | ["unstage"] => let s' := unstage s; (s', "ok" ++ tail s')
+  | "modacct" :: rest =>
+    match (do
+      let k ← (← kvGet rest "k").toNat?
+      let op ← (← kvGet rest "op").toNat?
+      let o ← (← kvGet rest "out").toNat?
+      pure (k, op, o)) with
+    | none => (s, "bad-op")
+    | some (k, op, o) => let s' := modAcct s k op o; (s', s!"ok accts={fmtAccts s'.db.accts}" ++ tail s')
   | _ => (s, "bad-op")
 
 end Pool.C05
